@@ -1029,6 +1029,31 @@ def rule_H(toks, au, h, lockflags=False, fname=None, force_flags=()):
     # 1. guard elimination:  let [mut] G = self.F.(lock|read|write)() [.unwrap()];   (after rule A)
     #    also  let [mut] G = <alias path>.lock();  for foreign lock paths declared in the hoist table
     held = []
+    # 0. a guard that lives for one expression only:  *<path>.(lock|read|write)()  is a read of the protected value under a lock
+    #    taken and released inside the statement -> st.F  (no flag: nothing can be called while such a guard is alive)
+    i = 0
+    while i < len(toks):
+        if is_p(toks[i], "*") and i + 1 < len(toks) and toks[i + 1].kind == "id":
+            k = i + 1
+            path = []
+            while k < len(toks) and (toks[k].kind == "id" or is_p(toks[k], ".")):
+                path.append(toks[k].text)
+                k += 1
+            if len(path) >= 3 and path[-1] in LOCK_METHODS and path[-2] == "." and texts(toks, k, 2) == ["(", ")"] \
+                    and not is_p(toks[k + 2], "."):
+                recv = "".join(path[:-2])
+                F = None
+                if path[0] == "self" and len(path) == 5 and path[2] in h.fields:
+                    F = path[2]
+                elif recv in h.aliases:
+                    F = h.aliases[recv]
+                if F is not None and F not in h.nolock:
+                    au.note("H", f"one-expression guard *{recv}.{path[-1]}() read as {st}.{F}")
+                    if fname is not None:
+                        h.direct.setdefault(fname, {})
+                        h.direct[fname][F] = max(h.direct[fname].get(F, 0), 1 if path[-1] == "read" else 2)
+                    toks[i:k + 2] = [Tok("id", st, toks[i].ws), Tok("p", ".", ""), Tok("id", F, "")]
+        i += 1
     i = 0
     while i < len(toks):
         if is_id(toks[i], "let"):
